@@ -57,6 +57,8 @@ def check_input(inputs, cmps, registry):
             return {"kind": "not-normal-form", "input": inputs, "model": m.index, "type": before, "observed": bad[:5]}
         try:
             again = conv.enc_ty(g.optimize_type(copy.deepcopy(m.type)))
+        except stages.TooCostly:
+            raise
         except Exception as e:  # noqa
             return {"kind": "reoptimize-raises", "input": inputs, "model": m.index, "type": before,
                     "observed": f"{type(e).__name__}: {e}"}
@@ -79,7 +81,7 @@ def falsify(ctx):
         cmps = (focus[i][1] if i < len(focus) else None) or common.cmps_choice(rng)
         try:
             hit = check_input(inputs, cmps, registry)
-        except ZeroDivisionError:
+        except (ZeroDivisionError, stages.TooCostly):
             ctx.count("zero-division (two models with empty key sets): outside the property")
             continue
         except Exception as e:  # noqa
@@ -105,5 +107,7 @@ def replay(ctx, hit):
     inputs = [tuple(x) for x in hit["input"]]
     try:
         return check_input(inputs, cmps, stages.make_registry())
+    except stages.TooCostly:
+        raise
     except Exception as e:  # noqa
         return {"kind": "pipeline-raises", "input": inputs, "observed": f"{type(e).__name__}: {e}"}
